@@ -54,6 +54,8 @@ type pathState struct {
 	unknowns    []string
 	asyncFailure interface{}
 	pendingViolation *Violation
+	doms            map[*Term]*domain
+	domainDecisions int
 	mapOrderSym bool
 	tag         string
 	expectPanic bool
@@ -66,6 +68,7 @@ type pathState struct {
 func (ps *pathState) addPC(t *Term) {
 	ps.pc = append(ps.pc, t)
 	ps.solver.Assert(t)
+	ps.domainAssume(t)
 }
 
 // branch decides a symbolic condition for this path.
@@ -87,6 +90,27 @@ func (ps *pathState) branch(cond *Term) bool {
 	}
 	if len(ps.trace) >= ps.maxDecisions {
 		panic(pathEnd{"truncated", fmt.Sprintf("decision bound %d exceeded", ps.maxDecisions)})
+	}
+	if canT, canF, ok := ps.domainDecide(cond); ok {
+		switch {
+		case canT && canF:
+			alt := make([]decision, len(ps.trace)+1)
+			copy(alt, ps.trace)
+			alt[len(ps.trace)] = decision{taken: false}
+			ps.newWork = append(ps.newWork, alt)
+			ps.trace = append(ps.trace, decision{taken: true})
+			ps.addPC(cond)
+			return true
+		case canT:
+			ps.trace = append(ps.trace, decision{taken: true})
+			ps.addPC(cond)
+			return true
+		case canF:
+			ps.trace = append(ps.trace, decision{taken: false})
+			ps.addPC(tt.Not(cond))
+			return false
+		}
+		panic(engErr("branch: path condition has an empty domain"))
 	}
 	r := ps.solver.Check(cond)
 	if r == "unsat" {
@@ -197,6 +221,13 @@ func (ps *pathState) assume(cond *Term) {
 	}
 	if cond.isFalse() {
 		panic(pathEnd{"assumed", ""})
+	}
+	if canT, _, ok := ps.domainDecide(cond); ok {
+		if !canT {
+			panic(pathEnd{"assumed", ""})
+		}
+		ps.addPC(cond)
+		return
 	}
 	switch ps.solver.Check(cond) {
 	case "unsat":
